@@ -1132,9 +1132,9 @@ func gen(g *core.G) {
 	genIface(g)
 	genGoObj(g)
 	genIfaceX(g)
-	chains, perChain, tuples := 300, 4, 5
+	chains, perChain, tuples := 800, 4, 5
 	if g.Thorough() {
-		chains, perChain = 10000, 2
+		chains, perChain = 20000, 2
 	}
 	for i := 0; i < chains; i++ {
 		defs := genChain(g.Rng)
